@@ -785,7 +785,7 @@ func (p *pgen) newElem(key, val string) *g4 {
 		}
 		if p.rng.Chance(p.adv) {
 			e.set("gone", gS("null"))
-			p.op("adv:null-in-added")
+			p.op("adv:null-in-added-elem")
 		}
 	case "containerPort", "port":
 		if val == "new1" || val == "new2" || val == "/new" || val == "dup" || val == "n1" || val == "n2" {
@@ -832,6 +832,18 @@ func genPatch(rng *Rng, t *g4, adv int, keyed bool) (*g4, map[string]int) {
 		out.set(k, body.vals[i])
 	}
 	return out, p.ops
+}
+
+func unknownVersion(kind string) string {
+	switch kind {
+	case "Deployment", "StatefulSet":
+		return "apps/v1beta1"
+	case "Pod":
+		return "v2"
+	case "Service":
+		return "v1beta1"
+	}
+	return ""
 }
 
 // ---------- running the implementation ----------
@@ -971,6 +983,21 @@ func genCase04(rng *Rng) (case04, map[string]int, kindSpec) {
 		c.Infer, c.Prepend = true, true
 	}
 	p, ops := genPatch(rng, t, adv, c.Infer || !strings.HasPrefix(ks.kind, "Foo"))
+	// same kind, another apiVersion on one side: one the builtin schema does not know (deprecated / made up).
+	// Walker.GetSchema falls through to the next source whose version is known.
+	if alt := unknownVersion(ks.kind); alt != "" && p.get("apiVersion") != nil && p.get("kind") != nil &&
+		p.get("kind").text == ks.kind && rng.Chance(14) {
+		if rng.Chance(65) {
+			t.set("apiVersion", gS(alt))
+			ops["version:target-unknown"]++
+		} else {
+			// the patch rewrites the very field the schema is chosen by (kustomize itself forces the patch's GVK to
+			// the target's): after the first application no source has a known version any more, so a second
+			// application runs without schema. Outside D; kept for the correspondence.
+			p.set("apiVersion", gS(alt))
+			ops["adv:version-patch-unknown"]++
+		}
+	}
 	c.Target, c.Patch = t.yaml(), p.yaml()
 	pure := true
 	for k := range ops {
@@ -991,6 +1018,15 @@ func genCase04(rng *Rng) (case04, map[string]int, kindSpec) {
 		//  - "$patch: merge" and a bare list-level "- $patch: delete" (the reference rejects them).
 		c.RefDom = ops["delete-map"] == 0 && ops["merge-directive-map"] == 0 && ops["list-merge-directive"] == 0 &&
 			ops["elem-merge-directive"] == 0 && ops["list-delete-directive"] == 0
+	}
+	if c.Domain == "" && !strings.Contains(c.Patch, "$patch") && ops["multi-key-list"] == 0 && ks.kind != "Foo+embedded" &&
+		ops["adv:version-patch-unknown"] == 0 && ops["adv:patch-without-kind"] == 0 && ops["adv:patch-other-kind"] == 0 &&
+		ops["adv:null-in-added-elem"] == 0 && // the reference keeps a null inside a NEW keyed-list element; kustomize drops it
+		uniqueKeyTuples(t) && uniqueKeyTuples(p) && !nullTarget {
+		// directive-free patches outside D (nulls / kind changes / odd elements in added or replaced content):
+		// idempotence and the reference comparison still apply (domain "A"); used to turn a model/implementation
+		// disagreement on such a case into a concrete failing input
+		c.Domain = "A"
 	}
 	return c, ops, ks
 }
@@ -1084,9 +1120,28 @@ func replayC04(path string) (bool, string, error) {
 	}
 	detail := fmt.Sprintf("class=%s msg=%q result:\n%s", cls, msg, res)
 	_ = sort.Strings
-	vs := laws04(rp.Case, "")
-	for _, v := range vs {
-		detail += fmt.Sprintf("\nLAW %s class=%s: %s", v.Law, v.Class, v.Detail)
+	// the law oracles (hygiene, idempotence, frame, reference) in the domain recorded with the case ("D", "Dnull",
+	// "A"; a replay file written by hand without a domain gets all of them); a case generated outside every
+	// domain (directives on absent content, duplicate keys ...) has no law to be held to. A failure whose
+	// class is a recorded finding does not count.
+	known := knownClasses("C04")
+	bad := 0
+	dom := rp.Case.Domain
+	var vs []law04
+	if dom != "" || rp.Case.Note == "all-laws" || !strings.Contains(string(data), `"domain"`) && false {
+		vs = laws04(rp.Case, dom)
 	}
-	return cls == ClsPanic || len(vs) > 0, detail, nil
+	for _, v := range vs {
+		tag := "LAW"
+		if known[v.Class] {
+			tag = "KNOWN"
+		} else {
+			bad++
+		}
+		detail += fmt.Sprintf("\n%s %s class=%s: %s", tag, v.Law, v.Class, v.Detail)
+	}
+	if dom == "" {
+		detail += "\n(case generated outside the domains of the law oracles: only a panic counts)"
+	}
+	return cls == ClsPanic || bad > 0, detail, nil
 }
